@@ -15,7 +15,7 @@
    Anything outside the fragment evaluates to [Err Unsupported]; the correspondence check
    skips such cases and reports how many there were.                                      *)
 From Coq Require Import DecimalString.
-From SFV Require Import Base.
+From SFV Require Import Base RandRange RowHistory.
 
 (* ------------------------------------------------------------------ syntax *)
 
@@ -33,6 +33,7 @@ Inductive fdef :=
 | FFormula (ps : list piece)        (* SimpleValue with template syntax                  *)
 | FRef (path : string)              (* reference: a.b.c                                  *)
 | FNested (t : template)            (* an object template as a value                     *)
+| FRandRef (target : string)        (* random_reference: <name>  (default scope, not unique) *)
 with template :=
 | Tpl (table : string) (nick : option string) (count : option fdef) (just_once : bool)
       (fields : list (string * fdef)) (friends : list stmt)
@@ -55,7 +56,8 @@ Inductive value :=
 | VStr (s : string)
 | VRow (h : nat)                    (* ObjectRow, by heap handle                         *)
 | VSlot (name : string)             (* NicknameSlot (forward reference)                  *)
-| VUndef.                           (* jinja2.Undefined: lives inside formulas only      *)
+| VUndef                            (* jinja2.Undefined: lives inside formulas only      *)
+| VRef (table : string) (id : Z).   (* LazyLoadedObjectReference from random_reference   *)
 
 Record cell := mkCell {
   c_table : string; c_id : Z; c_index : Z;
@@ -70,9 +72,13 @@ Record frame := mkFrame { f_vars : list (string * value); f_obj : option nat }.
 Inductive ovalue := ONull | OInt (z : Z) | OStr (s : string) | ORef (table : string) (id : Z).
 Definition orow := (string * list (string * ovalue))%type.
 
+(* Interpreter.row_history (the kernel of RowHistory.v) and the stream of results of
+   random.Random._randbelow still to be consumed (recorded from the implementation run) *)
+Record rstate := mkR { hist : rh; draws : list Z }.
+
 Record st := mkSt {
   ids : list (string * Z);                (* IdManager.last_used_ids                      *)
-  slots : list (string * slot);           (* Transients.named_slots                       *)
+  slots : list (string * slot);                  (* Transients.named_slots                       *)
   nick_objs : list (string * nat);        (* Transients.nicknamed_objects                 *)
   last_by_table : list (string * nat);    (* Transients.last_seen_obj_by_table            *)
   p_nicks : list (string * nat);          (* Globals.persistent_nicknames                 *)
@@ -80,13 +86,18 @@ Record st := mkSt {
   heap : list cell;
   frames : list frame;                    (* RuntimeContext stack, head = current         *)
   deps : list (string * string * string); (* Globals.intertable_dependencies (ordered set)*)
-  out : list orow                         (* rows delivered to the output stream, reversed *)
+  out : list orow;                        (* rows delivered to the output stream, reversed *)
+  rnd : rstate                            (* RowHistory + the remaining random draws       *)
 }.
 
 Record env := mkEnv {
   version : Z;                            (* 2 | 3 *)
   options : list (string * value);
-  name_slots : list (string * string)     (* Globals.nicknames_and_tables                 *)
+  name_slots : list (string * string);    (* Globals.nicknames_and_tables                 *)
+  hist_names : list (string * string);    (* nickname -> table map handed to RowHistory     *)
+  hist_tables : list string;              (* Interpreter.tables_to_keep_history_for         *)
+  rr_ok : bool                            (* false: a nickname of the recipe names two tables or
+                                             is also a table name - random_reference not modelled *)
 }.
 
 (* ------------------------------------------------------------------ association lists *)
@@ -250,17 +261,19 @@ Definition last_id (s : st) (t : string) : Z :=
   match lookup t (ids s) with Some z => z | None => 0 end.
 
 Definition upd_ids (s : st) (x : list (string * Z)) : st :=
-  mkSt x (slots s) (nick_objs s) (last_by_table s) (p_nicks s) (p_tables s) (heap s) (frames s) (deps s) (out s).
+  mkSt x (slots s) (nick_objs s) (last_by_table s) (p_nicks s) (p_tables s) (heap s) (frames s) (deps s) (out s) (rnd s).
 Definition upd_slots (s : st) (x : list (string * slot)) : st :=
-  mkSt (ids s) x (nick_objs s) (last_by_table s) (p_nicks s) (p_tables s) (heap s) (frames s) (deps s) (out s).
+  mkSt (ids s) x (nick_objs s) (last_by_table s) (p_nicks s) (p_tables s) (heap s) (frames s) (deps s) (out s) (rnd s).
 Definition upd_heap (s : st) (x : list cell) : st :=
-  mkSt (ids s) (slots s) (nick_objs s) (last_by_table s) (p_nicks s) (p_tables s) x (frames s) (deps s) (out s).
+  mkSt (ids s) (slots s) (nick_objs s) (last_by_table s) (p_nicks s) (p_tables s) x (frames s) (deps s) (out s) (rnd s).
 Definition upd_frames (s : st) (x : list frame) : st :=
-  mkSt (ids s) (slots s) (nick_objs s) (last_by_table s) (p_nicks s) (p_tables s) (heap s) x (deps s) (out s).
+  mkSt (ids s) (slots s) (nick_objs s) (last_by_table s) (p_nicks s) (p_tables s) (heap s) x (deps s) (out s) (rnd s).
 Definition upd_deps (s : st) (x : list (string * string * string)) : st :=
-  mkSt (ids s) (slots s) (nick_objs s) (last_by_table s) (p_nicks s) (p_tables s) (heap s) (frames s) x (out s).
+  mkSt (ids s) (slots s) (nick_objs s) (last_by_table s) (p_nicks s) (p_tables s) (heap s) (frames s) x (out s) (rnd s).
+Definition upd_rnd (s : st) (x : rstate) : st :=
+  mkSt (ids s) (slots s) (nick_objs s) (last_by_table s) (p_nicks s) (p_tables s) (heap s) (frames s) (deps s) (out s) x.
 Definition upd_out (s : st) (x : list orow) : st :=
-  mkSt (ids s) (slots s) (nick_objs s) (last_by_table s) (p_nicks s) (p_tables s) (heap s) (frames s) (deps s) x.
+  mkSt (ids s) (slots s) (nick_objs s) (last_by_table s) (p_nicks s) (p_tables s) (heap s) (frames s) (deps s) x (rnd s).
 
 (* IdManager.generate_id *)
 Definition generate_id (s : st) (t : string) : st * Z :=
@@ -363,7 +376,9 @@ Definition lookup_name (e : env) (s : st) (n : string) : result (option value) :
   match lookup n (f_vars (cur_frame s)) with Some v => Ok (Some v) | None =>
   match (match cur_obj s with Some c => row_attr c n | None => None end) with Some v => Ok (Some v) | None =>
   match object_name s n with Some v => Ok (Some v) | None =>
-  match lookup n (options e) with Some v => Ok (Some v) | None =>
+  match lookup n (options e) with
+  | Some (VRef _ _) => Err Unsupported      (* options are YAML scalars *)
+  | Some v => Ok (Some v) | None =>
     if String.eqb n "id" || String.eqb n "count" then
       Ok (Some (match cur_obj s with Some c => VInt (c_id c) | None => VNull end))
     else if String.eqb n "child_index" then
@@ -398,6 +413,8 @@ Fixpoint eval_expr (e : env) (x : expr) (s : st) : result (st * value) :=
     | VInt _ | VNull => if py_own_attr f then Err Unsupported else Ok (s1, VUndef)
     | VUndef => dge "undefined"
     | VStr _ => Err Unsupported          (* str has many attributes of its own *)
+    | VRef _ i => if String.eqb f "id" then Ok (s1, VInt i)
+                  else Err Unsupported   (* loads a pickled copy of the row from the history *)
     end
   | EAdd a b =>
     do '(s1, v1) <- eval_expr e a s; do '(s2, v2) <- eval_expr e b s1;
@@ -429,6 +446,7 @@ Definition to_str (s : st) (v : value) : result string :=
               | None => Err (Internal "dangling-handle") end
   | VSlot _ => Err Unsupported          (* repr of the slot object *)
   | VUndef => Ok EmptyString
+  | VRef _ _ => Err Unsupported         (* repr of the reference object *)
   end.
 
 Fixpoint render_pieces (e : env) (ps : list piece) (s : st) : result (st * string) :=
@@ -451,6 +469,7 @@ Definition render_formula (e : env) (ps : list piece) (s : st) : result (st * va
       match v with
       | VStr t => do w <- native_str t; Ok (s1, w)
       | VUndef => dge "undefined"
+      | VRef _ _ => dge "render"   (* hasattr(val, "render") makes the lazy reference look up 'render' in its row *)
       | _ => Ok (s1, v)
       end
     | _ => do '(s1, t) <- render_pieces e ps s; do w <- native_str t; Ok (s1, w)
@@ -470,6 +489,7 @@ Definition getattr_path (s : st) (v : value) (part : string) : result (st * valu
   | VSlot n => if String.eqb part "id" then do '(s1, i) <- touch_slot s n; Ok (s1, VInt i)
                else Err Unsupported
   | VStr _ => Err Unsupported           (* str has attributes of its own *)
+  | VRef _ i => if String.eqb part "id" then Ok (s, VInt i) else Err Unsupported
   | _ => dge "reference-attr"
   end.
 
@@ -490,7 +510,7 @@ Definition reference (e : env) (path : string) (s : st) : result (st * value) :=
     | Some v0 =>
       do '(s1, target) <- follow_path s v0 parts;
       match target with
-      | VRow _ => Ok (s1, target)
+      | VRow _ | VRef _ _ => Ok (s1, target)
       | VSlot n => do '(s2, _) <- touch_slot s1 n; Ok (s2, target)
       | _ => dge "incorrect-object-type"
       end
@@ -529,20 +549,21 @@ Definition register_object (s : st) (h : nat) (table : string) (nick : option st
     match nick with
     | Some n =>
       if once
-      then mkSt (ids s) (slots s) (nick_objs s) (last_by_table s) (assign n h (p_nicks s)) (p_tables s) (heap s) (frames s) (deps s) (out s)
-      else mkSt (ids s) (slots s) (assign n h (nick_objs s)) (last_by_table s) (p_nicks s) (p_tables s) (heap s) (frames s) (deps s) (out s)
+      then mkSt (ids s) (slots s) (nick_objs s) (last_by_table s) (assign n h (p_nicks s)) (p_tables s) (heap s) (frames s) (deps s) (out s) (rnd s)
+      else mkSt (ids s) (slots s) (assign n h (nick_objs s)) (last_by_table s) (p_nicks s) (p_tables s) (heap s) (frames s) (deps s) (out s) (rnd s)
     | None => s
     end in
   let s2 :=
     if once
-    then mkSt (ids s1) (slots s1) (nick_objs s1) (last_by_table s1) (p_nicks s1) (assign table h (p_tables s1)) (heap s1) (frames s1) (deps s1) (out s1)
+    then mkSt (ids s1) (slots s1) (nick_objs s1) (last_by_table s1) (p_nicks s1) (assign table h (p_tables s1)) (heap s1) (frames s1) (deps s1) (out s1) (rnd s1)
     else s1 in
-  mkSt (ids s2) (slots s2) (nick_objs s2) (assign table h (last_by_table s2)) (p_nicks s2) (p_tables s2) (heap s2) (frames s2) (deps s2) (out s2).
+  mkSt (ids s2) (slots s2) (nick_objs s2) (assign table h (last_by_table s2)) (p_nicks s2) (p_tables s2) (heap s2) (frames s2) (deps s2) (out s2) (rnd s2).
 
 Definition target_table (s : st) (v : value) : option string :=
   match v with
   | VRow h => match nth_error (heap s) h with Some c => Some (c_table c) | None => None end
   | VSlot n => match lookup n (slots s) with Some sl => Some (s_table sl) | None => None end
+  | VRef t _ => Some t
   | _ => None
   end.
 
@@ -575,6 +596,7 @@ Fixpoint flatten_fields (s : st) (fields : list (string * value)) : result (st *
                     | Some sl => do '(s1, i) <- touch_slot s nm; Ok (s1, ORef (s_table sl) i)
                     | None => Err (Internal "KeyError") end
       | VUndef => Err (Internal "undefined-stored")      (* never stored: see render_formula *)
+      | VRef t i => Ok (s, ORef t i)
       end;
     do '(s2, rest) <- flatten_fields s1 r;
     Ok (s2, (n, o) :: rest)
@@ -600,7 +622,37 @@ Definition count_of (v : value) : result Z :=
                  else if existsb (fun c => (nat_of_ascii c =? 95)%nat) (list_ascii_of_string x)
                       then Err Unsupported else dge "count")
               else Err Unsupported
-  | VNull | VRow _ | VSlot _ | VUndef => dge "count"
+  | VNull | VRow _ | VSlot _ | VUndef | VRef _ _ => dge "count"
+  end.
+
+Definition nick_maps_to (h : rh) (n table : string) : bool :=
+  match lookupS n (n2t h) with Some t => String.eqb t table | None => false end.
+
+(* RuntimeContext.remember_row, history part: rows of tables that some random_reference names *)
+Definition remember_history (e : env) (s : st) (table : string) (nick : option string) (id : Z) : result st :=
+  let in_hist (x : string) := existsb (String.eqb x) (hist_tables e) in
+  if in_hist table then
+    (* a nickname the history does not map to this table (possible only when one nickname names
+       two tables or is also a table name, see rr_ok) is outside the model *)
+    if match nick with Some n => negb (nick_maps_to (hist (rnd s)) n table) | None => false end
+    then Err Unsupported
+    else Ok (upd_rnd s (mkR (save_row (hist (rnd s)) table nick id) (draws (rnd s))))
+  else if match nick with Some n => in_hist n | None => false end
+       then Err Unsupported      (* INSERT into a history table that was never created *)
+       else Ok s.
+
+(* StandardFuncs.random_reference(to) + RandomReferenceContext.next with random.randint:
+   randint(lo, hi) = lo + _randbelow(hi - lo + 1); the drawn number comes from the recorded stream *)
+Definition random_reference (e : env) (target : string) (s : st) : result (st * value) :=
+  if negb (rr_ok e) then Err Unsupported else
+  do '(nick, table, lo, hi) <- ref_range (hist (rnd s)) target;
+  match draws (rnd s) with
+  | [] => Err BadOracle
+  | r :: rest =>
+    if (0 <=? r) && (r <? hi - lo + 1) then
+      do '(t, i) <- resolve_draw (hist (rnd s)) nick table (lo + r);
+      Ok (upd_rnd s (mkR (hist (rnd s)) rest), VRef t i)
+    else Err BadOracle
   end.
 
 (* ------------------------------------------------------------------ the evaluator *)
@@ -631,6 +683,8 @@ Fixpoint run (fuel : nat) (e : env) (tk : task) (s : st) : result (st * ret) :=
     | TStmt (SObj t) c =>
       if t_once t && c then Ok (s, RUnit)
       else do '(s1, _) <- run n e (TRows t) s; Ok (s1, RUnit)
+    | TStmt (SVar name (FRandRef _)) _ =>
+      Err Unsupported          (* the variable holds the iterator object itself, never drawn from *)
     | TStmt (SVar name d) _ =>
       do '(s1, r) <- run n e (TField d) (push_frame s);
       Ok (set_var (pop_frame s1) name (ret_value r), RUnit)
@@ -662,6 +716,7 @@ Fixpoint run (fuel : nat) (e : env) (tk : task) (s : st) : result (st * ret) :=
       | None => Err (Internal "dangling-handle")
       | Some c =>
         let s5 := remember_deps s4 (t_table t) (c_fields c) in
+        do s5 <- remember_history e s5 (t_table t) (t_nick t) id;
         do s6 <- write_row s5 h;
         do '(s7, _) <- run n e (TStmts (t_friends t) true) s6;
         Ok (s7, RRow (Some h))
@@ -678,6 +733,7 @@ Fixpoint run (fuel : nat) (e : env) (tk : task) (s : st) : result (st * ret) :=
     | TField (FFormula ps) => do '(s1, v) <- render_formula e ps s; Ok (s1, RVal v)
     | TField (FRef path) => do '(s1, v) <- reference e path s; Ok (s1, RVal v)
     | TField (FNested t) => run n e (TRows t) s
+    | TField (FRandRef to) => do '(s1, v) <- random_reference e to s; Ok (s1, RVal v)
     end
   end.
 
@@ -685,7 +741,11 @@ Fixpoint run (fuel : nat) (e : env) (tk : task) (s : st) : result (st * ret) :=
 
 (* Globals.reset_slots *)
 Definition reset_slots (e : env) (s : st) : st :=
-  mkSt (ids s) (fresh_slots e) [] [] (p_nicks s) (p_tables s) (heap s) (frames s) (deps s) (out s).
+  mkSt (ids s) (fresh_slots e) [] [] (p_nicks s) (p_tables s) (heap s) (frames s) (deps s) (out s) (rnd s).
+
+(* RowHistory.reset_locals at the end of every iteration *)
+Definition reset_hist (s : st) : st :=
+  upd_rnd s (mkR (reset_locals (hist (rnd s))) (draws (rnd s))).
 
 Definition fuel0 : nat := Z.to_nat 4000.
 
@@ -716,7 +776,8 @@ Definition survivors (s : st) : list value :=
 Definition iteration (e : env) (stmts : list stmt) (continuing : bool) (s : st) : result st :=
   do '(s1, _) <- run fuel0 e (TStmts stmts continuing) s;
   if slots_filled s1 then
-    if stale_slot 4 s1 (survivors s1) then Err Unsupported else Ok (reset_slots e s1)
+    if stale_slot 4 s1 (survivors s1) then Err Unsupported
+    else Ok (reset_hist (reset_slots e s1))
   else dge "references-not-fulfilled".
 
 Fixpoint iterations (k : nat) (e : env) (stmts : list stmt) (continuing : bool) (s : st) : result st :=
@@ -734,16 +795,86 @@ Definition mk_name_slots (stmts : list stmt) : list (string * string) :=
   let nicks := fold_left (fun acc t => match t_nick t with Some n => assign n (t_table t) acc | None => acc end) ts [] in
   fold_left (fun acc t => assign (t_table t) (t_table t) acc) ts nicks.
 
-Definition init_st (e : env) : st :=
-  mkSt [] (fresh_slots e) [] [] [] [] [] [mkFrame [] None] [] [].
+(* ---- what the interpreter hands to RowHistory (Interpreter.__init__) *)
 
-Record recipe := mkRecipe { r_version : Z; r_options : list (string * value); r_stmts : list stmt }.
+(* every template of the recipe (parse_result.tables[..]._templates), in any order *)
+Fixpoint all_templates_t (fuel : nat) (t : template) : list template :=
+  match fuel with
+  | O => []
+  | S n =>
+    t :: flat_map (fun nd => match snd nd with FNested u => all_templates_t n u | _ => [] end) (t_fields t)
+      ++ (match t_count t with Some (FNested u) => all_templates_t n u | _ => [] end)
+      ++ flat_map (fun x => match x with
+                            | SObj u => all_templates_t n u
+                            | SVar _ (FNested u) => all_templates_t n u
+                            | _ => [] end) (t_friends t)
+  end.
 
-Definition env_of (r : recipe) : env := mkEnv (r_version r) (r_options r) (mk_name_slots (r_stmts r)).
+Definition all_templates (stmts : list stmt) : list template :=
+  flat_map (fun x => match x with
+                     | SObj u => all_templates_t 50 u
+                     | SVar _ (FNested u) => all_templates_t 50 u
+                     | _ => [] end) stmts.
+
+(* the targets of every random_reference of the recipe (parse_result.random_references) *)
+Definition fdef_targets (d : fdef) : list string :=
+  match d with FRandRef x => [x] | _ => [] end.
+
+Definition all_rr_targets (stmts : list stmt) : list string :=
+  flat_map (fun x => match x with SVar _ d => fdef_targets d | _ => [] end) stmts ++
+  flat_map (fun t =>
+    flat_map (fun nd => fdef_targets (snd nd)) (t_fields t) ++
+    (match t_count t with Some d => fdef_targets d | None => [] end) ++
+    flat_map (fun x => match x with SVar _ d => fdef_targets d | _ => [] end) (t_friends t))
+    (all_templates stmts).
+
+(* nickname -> table over all templates, the top-level map on top of it *)
+Definition all_nick_pairs (stmts : list stmt) : list (string * string) :=
+  flat_map (fun t => match t_nick t with Some n => [(n, t_table t)] | None => [] end) (all_templates stmts).
+
+Definition mk_hist_names (stmts : list stmt) : list (string * string) :=
+  fold_left (fun acc nt => assign (fst nt) (snd nt) acc) (mk_name_slots stmts)
+            (fold_left (fun acc nt => assign (fst nt) (snd nt) acc) (all_nick_pairs stmts) []).
+
+(* the model does not decide the dictionary-order questions that arise when one nickname
+   names two tables or is also the name of a table *)
+Definition nick_unambiguous (stmts : list stmt) : bool :=
+  let ps := all_nick_pairs stmts in
+  let tables := map t_table (all_templates stmts) in
+  forallb (fun nt => forallb (fun mu => negb (String.eqb (fst nt) (fst mu)) || String.eqb (snd nt) (snd mu)) ps
+                     && negb (existsb (String.eqb (fst nt)) tables)) ps.
+
+Fixpoint dedup (l : list string) : list string :=
+  match l with [] => [] | x :: r => if existsb (String.eqb x) r then dedup r else x :: dedup r end.
+
+(* find_tables_to_keep_history_for *)
+Definition mk_hist_tables (stmts : list stmt) : list string :=
+  let names := mk_hist_names stmts in
+  dedup (map (fun n => match lookup n names with Some t => t | None => n end) (all_rr_targets stmts)).
+
+(* RowHistory(orig_used_ids, tables, names); nothing is kept when no table needs history, so
+   that recipes without random_reference have a constant history *)
+Definition init_hist (e : env) (ids0 : list (string * Z)) : rh :=
+  match hist_tables e with
+  | [] => mkRh [] [] [] [] []
+  | _ => rh_init ids0 (hist_names e)
+  end.
+
+Definition init_st (e : env) (dr : list Z) : st :=
+  mkSt [] (fresh_slots e) [] [] [] [] [] [mkFrame [] None] [] [] (mkR (init_hist e []) dr).
+
+Record recipe := mkRecipe {
+  r_version : Z; r_options : list (string * value); r_stmts : list stmt;
+  r_draws : list Z     (* results of random.Random._randbelow, in call order, over the whole history *)
+}.
+
+Definition env_of (r : recipe) : env :=
+  mkEnv (r_version r) (r_options r) (mk_name_slots (r_stmts r))
+        (mk_hist_names (r_stmts r)) (mk_hist_tables (r_stmts r)) (nick_unambiguous (r_stmts r)).
 
 (* a fresh run of k iterations (stopping criterion: repetitions) *)
 Definition run_fresh (r : recipe) (k : nat) : result st :=
-  iterations k (env_of r) (r_stmts r) false (init_st (env_of r)).
+  iterations k (env_of r) (r_stmts r) false (init_st (env_of r) (r_draws r)).
 
 Definition rows_of (s : st) : list orow := rev (out s).
 
@@ -762,7 +893,8 @@ Record cont := mkCont {
   k_p_nicks : list (string * nat);
   k_p_tables : list (string * nat);
   k_heap : list cell;
-  k_deps : list (string * string * string)
+  k_deps : list (string * string * string);
+  k_draws : list Z                  (* model artefact: the draws not yet consumed        *)
 }.
 
 (* ObjectRow.__getstate__: nested ObjectRows are dropped; a NicknameSlot value cannot be
@@ -774,7 +906,7 @@ Fixpoint saved_fields (fs : list (string * value)) : result (list (string * valu
     do rest <- saved_fields r;
     match v with
     | VRow _ => Ok rest
-    | VSlot _ => Err (Internal "RepresenterError")
+    | VSlot _ | VRef _ _ => Err (Internal "RepresenterError")
     | _ => Ok ((n, v) :: rest)
     end
   end.
@@ -794,17 +926,62 @@ Fixpoint clean_handles (h : list cell) (hs : list nat) : result (list cell) :=
 
 Definition save (s : st) : result cont :=
   do h1 <- clean_handles (heap s) (map snd (p_nicks s) ++ map snd (p_tables s));
-  Ok (mkCont (ids s) (p_nicks s) (p_tables s) h1 (deps s)).
+  Ok (mkCont (ids s) (p_nicks s) (p_tables s) h1 (deps s) (draws (rnd s))).
 
-Definition load (e : env) (c : cont) : st :=
-  mkSt (k_ids c) (fresh_slots e) [] [] (k_p_nicks c) (k_p_tables c) (k_heap c)
-       [mkFrame [] None] (k_deps c) [].
+(* insertion sort by key (yaml.dump sorts mapping keys; the file is read back in that order) *)
+Fixpoint insert_by_key {A} (x : string * A) (l : list (string * A)) : list (string * A) :=
+  match l with
+  | [] => [x]
+  | y :: r => if String.leb (fst x) (fst y) then x :: l else y :: insert_by_key x r
+  end.
+Definition sort_by_key {A} (l : list (string * A)) : list (string * A) :=
+  fold_right insert_by_key [] l.
+
+(* Interpreter.resave_objects_from_continuation: persistent rows by nickname (file order), then
+   those known by table name only whose bare id was not yet saved; tables without history are
+   skipped; afterwards the nickname ordinals handed out count as "not local" *)
+Definition resave (e : env) (c : cont) (h0 : rh) : result rh :=
+  let cell_of (x : nat) := nth_error (k_heap c) x in
+  let by_nick := sort_by_key (k_p_nicks c) in
+  let by_table := sort_by_key (k_p_tables c) in
+  do nick_rows <- (fix go (l : list (string * nat)) : result (list (string * option string * Z)) :=
+                     match l with
+                     | [] => Ok []
+                     | (n, x) :: r => match cell_of x with
+                                      | Some cl => do rest <- go r; Ok ((c_table cl, Some n, c_id cl) :: rest)
+                                      | None => Err (Internal "dangling-handle") end
+                     end) by_nick;
+  do table_rows <- (fix go (l : list (string * nat)) : result (list (string * option string * Z)) :=
+                     match l with
+                     | [] => Ok []
+                     | (t, x) :: r => match cell_of x with
+                                      | Some cl => if String.eqb t (c_table cl)
+                                                   then do rest <- go r; Ok ((t, None, c_id cl) :: rest)
+                                                   else Err (Internal "table-map-inconsistent")
+                                      | None => Err (Internal "dangling-handle") end
+                     end) by_table;
+  let saved_ids := map (fun r => snd r) nick_rows in
+  let rows := nick_rows ++ filter (fun r => negb (existsb (Z.eqb (snd r)) saved_ids)) table_rows in
+  let rows := filter (fun r => existsb (String.eqb (fst (fst r))) (hist_tables e)) rows in
+  if negb (forallb (fun r => match snd (fst r) with
+                             | Some n => nick_maps_to h0 n (fst (fst r)) | None => true end) rows)
+  then Err Unsupported else
+  let h1 := fold_left (fun h r => save_row h (fst (fst r)) (snd (fst r)) (snd r)) rows h0 in
+  Ok (mkRh (tc h1) (nc h1) (fold_left (fun l nv => assignZ (fst nv) (snd nv) l) (nc h1) (lc h1)) (n2t h1) (hrows h1)).
+
+Definition load (e : env) (c : cont) : result st :=
+  do h <- match hist_tables e with
+          | [] => Ok (init_hist e (k_ids c))
+          | _ => resave e c (init_hist e (k_ids c))
+          end;
+  Ok (mkSt (k_ids c) (fresh_slots e) [] [] (k_p_nicks c) (k_p_tables c) (k_heap c)
+           [mkFrame [] None] (k_deps c) [] (mkR h (k_draws c))).
 
 (* one run of k iterations, fresh or continued; returns the final state *)
 Definition run_one (r : recipe) (k : nat) (c : option cont) : result st :=
   match c with
   | None => run_fresh r k
-  | Some c0 => iterations k (env_of r) (r_stmts r) true (load (env_of r) c0)
+  | Some c0 => do s0 <- load (env_of r) c0; iterations k (env_of r) (r_stmts r) true s0
   end.
 
 (* a chain of runs linked by continuation files; the rows of each run *)
